@@ -53,6 +53,11 @@ def gen_doc(r):
                     branches.append({"$ref": "#/definitions/" + r.choice(stringish)})
                 else:
                     branches.append({"type": "string", "pattern": r.choice(schemagen.PATTERNS)[0]})
+            if r.random() < 0.35:
+                # two alternatives with one and the same payload type (they differ in annotations only)
+                dup = dict(r.choice(branches))
+                dup["title" if "$ref" not in dup else "description"] = "again"
+                branches.insert(r.randrange(len(branches) + 1), dup)
             s = {"oneOf": branches}
         defs[nm] = s
         stringish.append(nm)
